@@ -6,6 +6,7 @@ import PartituraModel.Model.MatchCodec
 import PartituraModel.Proofs.C07Codec
 import PartituraModel.Proofs.C07Frac
 import PartituraModel.Proofs.C07Float
+import PartituraModel.Proofs.C07Bound
 
 namespace C07
 open Model Model.Template Model.MatchCodec
@@ -225,8 +226,8 @@ theorem tsig_roundtrip (t : TimeSig) (hn : t.num ≤ BOUND) (hd : t.den ≤ BOUN
     obtain ⟨n, d, o⟩ := t
     simp only at he hn hd
     subst he
-    simp only [decode, C07Codec.decTsig_encTsig n d hn hd, Except.map]
-  · simp only [decode, C07Codec.decTsig_encTsigList t hn hd ho, Except.map]
+    simp only [decode, C07Bound.decTsigB_of_ok _ _ (C07Codec.decTsig_encTsig n d hn hd), Except.map]
+  · simp only [decode, C07Bound.decTsigB_of_ok _ _ (C07Codec.decTsig_encTsigList t hn hd ho), Except.map]
 
 example : encTsigList ⟨2, 4, [⟨3, 4, none, none⟩]⟩ = "[2/4,3/4]".toList ∧
     decTsig "[2/4,3/4]".toList = .ok ⟨2, 4, [⟨3, 4, none, none⟩]⟩ := by decide +kernel
@@ -300,9 +301,9 @@ theorem codec_roundtrip (e : Enc) (d : Dec) (v : Val) (h : Adm e d v) :
     | none => rw [he] at h; simp at h
     | some text => exact ⟨text, by simp only [encode, he], repr_roundtrip q text he⟩
   · rename_i f
-    exact ⟨f.toStr, rfl, by simp only [decode, frac_string_roundtrip f h, Except.map]⟩
+    exact ⟨f.toStr, rfl, by simp only [decode, C07Bound.fracFromStringB_of_ok _ _ (frac_string_roundtrip f h), Except.map]⟩
   · rename_i f
-    exact ⟨f.toStrRational, rfl, by simp only [decode, toStrRational_roundtrip f h.1 h.2, Except.map]⟩
+    exact ⟨f.toStrRational, rfl, by simp only [decode, C07Bound.fracFromStringB_of_ok _ _ (toStrRational_roundtrip f h.1 h.2), Except.map]⟩
   · rename_i l
     exact ⟨encList l, rfl, list_roundtrip l h.1 h.2⟩
   · rename_i l
